@@ -142,6 +142,14 @@ def run(ctx, case):
         if st != "ok":
             raise RuntimeError("spec rejected: %s" % H.exc_sig(a))
         ctx.count("built", "fresh")
+        if rng.random() < 0.3:
+            # the user's component objects also serve a second System, assembled in another order (other node indices)
+            # and analysed, before the first one is saved
+            from . import _rows as _rw
+
+            with H.quiet():
+                _rw._sibling(a, spec, case["vseed"], reorder=True)
+            ctx.count("built", "component objects shared with a sibling system")
     with H.tmpdir() as d:
         f1 = os.path.join(d, "a.json")
         st, r = H.call(a.save, f1)
